@@ -444,9 +444,9 @@ class MProcess(QOperation):
     ) -> np.ndarray:
         dim = c_sys.dim
 
-        # var to hss
-        hss = convert_var_to_hss(
-            c_sys, var, on_para_eq_constraint=on_para_eq_constraint
+        # var to hss (copied: with on_para_eq_constraint=False the hss are views of var)
+        hss = copy.deepcopy(
+            convert_var_to_hss(c_sys, var, on_para_eq_constraint=on_para_eq_constraint)
         )
 
         # calc new var
